@@ -330,11 +330,19 @@ def _cli_job(job):
         # second generation: every earlier generation is its own command-line process; the observed run compiles the last output
         for gi, g_opts in enumerate(gen_opts):
             gd = os.path.join(d, "gen%d" % gi)
-            subprocess.run([common.PY, "-m", "ethosu.vela", path, "--output-dir", gd] + list(g_opts),
-                           env=env, cwd=d, capture_output=True, text=True, timeout=600)
+            r0 = subprocess.run([common.PY, "-m", "ethosu.vela", path, "--output-dir", gd] + list(g_opts),
+                                env=env, cwd=d, capture_output=True, text=True, timeout=600)
             prev = os.path.join(gd, "net_vela.tflite")
-            if os.path.exists(prev):
-                os.replace(prev, path)          # same file name for every generation: the name is part of the summary only
+            if not os.path.exists(prev):
+                # never compile the SOURCE in place of a missing earlier output: the observation says what happened instead
+                # (a process killed by a signal is the machine's doing, not the compiler's: harness failure)
+                if r0.returncode < 0:
+                    raise common.InfraError(f"earlier generation {gi} of a command-line chain was killed by signal {-r0.returncode}")
+                return {"status": f"earlier-generation:{gi}:rc={r0.returncode}", "diag": (r0.stderr or r0.stdout)[-200:], "size": 0, "digest": "-",
+                        "figures": None, "debugdb": None, "stale_hits": [], "stale_addr": [], "greedy_ties": 0,
+                        "dupnames": detnets.has_duplicate_names(net), "src_ops": [o.kind for o in net.ops], "model": None,
+                        "tb": (r0.stderr or "")[-500:]}
+            os.replace(prev, path)          # same file name for every generation: the name is part of the summary only
         r = subprocess.run([common.PY, "-m", "ethosu.vela", path, "--output-dir", os.path.join(d, "out")] + list(opts),
                            env=env, cwd=d, capture_output=True, text=True, timeout=600)
         outp = os.path.join(d, "out", "net_vela.tflite")
